@@ -393,3 +393,46 @@ func TestVerifShardQueue(t *testing.T) {
 		enc.Encode(map[string]interface{}{"scenario": wo.Scenarios[i].ID, "info": info, "events": evs})
 	}
 }
+
+// free-running ShardQueue runs for the race detector (C19): concurrent adders and a closer on real threads
+type mFreeWriter struct {
+	netpoll.Writer
+	mu sync.Mutex
+	n  int
+}
+
+func (w *mFreeWriter) Append(b netpoll.Writer) error { w.mu.Lock(); w.n++; w.mu.Unlock(); return nil }
+func (w *mFreeWriter) Flush() error                  { return nil }
+
+type mFreeConn struct {
+	netpoll.Connection
+	w *mFreeWriter
+}
+
+func (c *mFreeConn) IsActive() bool         { return true }
+func (c *mFreeConn) Writer() netpoll.Writer { return c.w }
+func (c *mFreeConn) Close() error           { return nil }
+
+func TestVerifShardQueueFree(t *testing.T) {
+	if os.Getenv("VERIF_OUT") == "" {
+		t.Skip("VERIF_OUT not set")
+	}
+	rounds := 300
+	for r := 0; r < rounds; r++ {
+		q := NewShardQueue(1+r%4, &mFreeConn{w: &mFreeWriter{}})
+		var wg sync.WaitGroup
+		for a := 0; a < 4; a++ {
+			wg.Add(1)
+			go func() {
+				defer wg.Done()
+				for k := 0; k < 5; k++ {
+					q.Add(func() (netpoll.Writer, bool) { return netpoll.NewLinkBuffer(), false })
+				}
+			}()
+		}
+		wg.Add(1)
+		go func() { defer wg.Done(); time.Sleep(time.Duration(r%50) * time.Microsecond); q.Close() }()
+		wg.Wait()
+	}
+	os.WriteFile(os.Getenv("VERIF_OUT"), []byte(fmt.Sprintf("{\"rounds\": %d}\n", rounds)), 0644)
+}
